@@ -46,38 +46,7 @@ def new_pregex(eng, path, label, tname, cls=None, text=None, cats=None, repeatab
 # ------------------------------------------------------------------------------------------------------
 # parameter kinds
 
-_OPK = TYPE_NAMES + ["str0", "str1", "str2", "other"]
-# operand tuples of the variadic class forms: none, every single operand kind, every PAIR of operand kinds, and
-# representative triples (the arity is enumerated - a stated bound; the kinds within an arity <= 2 are complete)
-VARPRE = [""] + _OPK + [a + "|" + b for a in _OPK for b in _OPK] + [
-    "Alternation|Empty|Other", "Other|Other|Other", "Assertion|Other|str2", "Other|Alternation|Empty", "str2|Empty|Other",
-    "Other|str0|Quantifier", "Group|Class|Token", "other|Other|Other", "Other|Other|other"]
-
-KIND_TAGS = {
-    "self": TYPE_NAMES,
-    "pregex": TYPE_NAMES,
-    "pre": TYPE_NAMES + ["str0", "str1", "str2", "other"],
-    "dyn": ["int", "bool", "none", "float", "str", "other"],
-    "dynint": ["int", "bool", "float", "str", "other", "none"],
-    "bool": ["bool"],
-    "int": ["int"],
-    "optint": ["int", "none"],
-    "str": ["str"],
-    "optname": ["none", "str", "other", "int"],
-    "name": ["str", "other", "int", "none"],
-    "text": ["str"],
-    "selfc": ["Other", "Other+compiled"],
-    "rangestrs": ["rangestrs"],
-    "intx": ["int", "none", "float", "str", "other"],
-    "intnb": ["int", "float", "str", "other"],
-    "formats": ["none", "str", "strs:0", "strs:1", "strs:2", "strs:3"],
-    "affixes": ["str", "strs:0", "strs:1", "strs:2", "other", "strs+other"],
-    "charlist": ["charlist"],
-    "newobj": ["new"],
-    "varpre_small": ["", "Other", "str2", "other", "Empty", "Other|Alternation", "Empty|Other", "Other|other", "str2|Empty|Other",
-                     "Assertion|str1"],
-    "varpre": VARPRE,
-}
+from pvc_kinds import KIND_TAGS, VARPRE, VARCHARS
 
 NAME_RX = "[A-Za-z_]\\w*"
 SHAPES = {
@@ -133,7 +102,7 @@ def forks_for(params):
 
 
 def make_value(eng, path, name, kind, tag, fi=None):
-    if kind in ("varpre", "varpre_small"):
+    if kind in ("varpre", "varpre_small", "varchars"):
         if tag == "":
             return ()
         return tuple(make_value(eng, path, f"{name}{i}", "pre", t, fi) for i, t in enumerate(tag.split("|")))
@@ -612,6 +581,28 @@ def sb_BREFNAME(eng, path, name):
     return strre.lang_pred(eng, strre.plain_regex(BREF_RX))(str_term(name))
 
 
+def sb_RAWTEXT(eng, path, x):
+    """str(x): the string itself, or a Pregex's pattern"""
+    if isinstance(x, Obj):
+        return path.getf(x, "_Pregex__pattern")
+    return x
+
+
+def sb_ORD(eng, path, s):
+    if isinstance(s, str):
+        return ord(s)
+    return z3.StrToCode(str_term(s))
+
+
+def sb_CLASSARG(eng, path, p):
+    """ghost: the bracket text this class instance handed to __Class.__init__"""
+    return path.getf(p, "_ghost_classarg")
+
+
+def sb_NEGATED(eng, path, p):
+    return path.getf(p, "_Class__is_negated")
+
+
 def sb_LISTV(eng, path, x):
     return isinstance(x, (list, MapList, TermList))
 
@@ -998,6 +989,18 @@ def ret_opaque_other(eng, path, env, fi, contract):
     return path.memo[key]
 
 
+def ret_class_init(eng, path, env, fi, contract):
+    """__Class.__init__ (assumed): the instance becomes an arbitrary non-empty pattern of inferred type Class; the text it
+    was given and the negation flag are remembered (ghost / private fields)"""
+    me = env["self"]
+    src = new_pregex(eng, path, "cls", "Class")
+    path.fields(me).update(path.fields(src))
+    path.setf(me, "_Pregex__pattern", path.fields(src)["_Pregex__pattern"])
+    path.setf(me, "_Class__is_negated", env["is_negated"])
+    path.fields(me)["_ghost_classarg"] = env["pattern"]
+    return None
+
+
 def ret_opaque_class(eng, path, env, fi, contract):
     key = (fi.qualname, tuple(value_key(v) for v in env.values()))
     if key not in path.memo:
@@ -1016,7 +1019,7 @@ def ret_opaque_init(eng, path, env, fi, contract):
     return None
 
 
-RETURNS = {"opaque_class": ret_opaque_class, "opaque_other": ret_opaque_other, "opaque_init": ret_opaque_init, "wrapped_init": ret_wrapped_init, "split_range": ret_split_range, "none": ret_none, "infer": ret_infer, "initpregex": ret_initpregex, "setcompiled": ret_setcompiled, "to_pregex": ret_to_pregex, "pregex": ret_pregex, "expr": ret_expr, "newpregex": ret_newpregex}
+RETURNS = {"class_init": ret_class_init, "opaque_class": ret_opaque_class, "opaque_other": ret_opaque_other, "opaque_init": ret_opaque_init, "wrapped_init": ret_wrapped_init, "split_range": ret_split_range, "none": ret_none, "infer": ret_infer, "initpregex": ret_initpregex, "setcompiled": ret_setcompiled, "to_pregex": ret_to_pregex, "pregex": ret_pregex, "expr": ret_expr, "newpregex": ret_newpregex}
 
 
 # ------------------------------------------------------------------------------------------------------
